@@ -8,15 +8,16 @@
 (* 1000..4000 coins, an offline candidate, a wait list, frozen funds).     *)
 (*                                                                         *)
 (*  - exhaustive checking (mc/MCStaking_*.cfg): short periods (unbond 3,   *)
-(*    move 2, jail 2, window 4, grace 1, stake period 3) so that every     *)
+(*    move 2, jail 2, window 4, grace 3, stake period 3) so that every     *)
 (*    deadline falls inside a behaviour of a few blocks; the property      *)
 (*    clauses of PropsStaking/Props are checked as action properties;      *)
 (*  - scenario generation (gen/MCStakingGen.cfg): the node's real periods  *)
 (*    and a Skip action (n quiet blocks in one step); every behaviour is   *)
 (*    printed as a scenario and replayed on the real node in world W2u.    *)
 (* Deviations from the node, by name: rewards are not recomputed from the  *)
-(* pool price (Rewards.tla does that), owners with a stake lock are kept   *)
-(* away from payouts (LockStake only in configurations without a payout).  *)
+(* pool price (Rewards.tla does that); an owner with a stake lock is paid   *)
+(* the plain share at a payout (the node pays it more: C19 asks for "at     *)
+(* least the share" there).                                                *)
 (***************************************************************************)
 EXTENDS PropsMarkets, Staking
 
@@ -32,7 +33,7 @@ H0 == IF Real THEN 10197399 ELSE 11
 WorldCfg == IF Real
             THEN [world |-> "W2u", stakePeriod |-> 6, expirePeriod |-> 5, initial |-> H0 + 1, unbond |-> 531, move |-> 177, jail |-> 354, chain |-> Chain, family |-> "staking"]
             ELSE [world |-> "W2u", stakePeriod |-> 3, expirePeriod |-> 5, initial |-> H0 + 1, unbond |-> 3, move |-> 2, jail |-> 2, chain |-> Chain, family |-> "staking",
-                  lock |-> 4, window |-> 4, grace |-> 1, minStake |-> 1000]
+                  lock |-> 4, window |-> 4, grace |-> 3, minStake |-> 1000]
 Cap == 1000000000
 PriceFields == {"PayloadByte", "Send", "BuyBancor", "SellBancor", "SellAllBancor", "BuyPoolBase", "BuyPoolDelta", "SellPoolBase",
    "SellPoolDelta", "SellAllPoolBase", "SellAllPoolDelta", "CreateTicker3", "CreateTicker4", "CreateTicker5", "CreateTicker6",
@@ -74,13 +75,13 @@ Init ==
               cfg |-> WorldCfg, unit |-> 1, sc |-> "mc", present |-> {}, cap |-> Cap]
    /\ phase = "idle"
    /\ scn = <<>>
-   /\ cnt = [blocks |-> 0, inBlock |-> 0, total |-> 0, evidence |-> 0, absent |-> 0]
+   /\ cnt = [blocks |-> 0, inBlock |-> 0, total |-> 0, evidence |-> 0, absent |-> 0, skips |-> 0]
 
 \* ---------------------------------------------------------------- block lifecycle
 ValSet == {st.vals[i].p : i \in DOMAIN st.vals}
 AbsentChoices == IF "Absent" \in Menu /\ cnt.absent < MaxAbsent THEN {{}, {"v1"}} \cup (IF "Absent2" \in Menu THEN {{"v1", "v3"}} ELSE {}) ELSE {{}}
 EvidenceChoices == IF "Evidence" \in Menu /\ cnt.evidence < MaxEvidence
-                   THEN {<<>>, <<"v4">>, <<"v4", "v4">>, <<"c5">>, <<"v4", "v1">>, <<"nobody">>} ELSE {<<>>}
+                   THEN {<<>>, <<"v4">>, <<"v4", "v4">>, <<"c5">>} \cup (IF Real THEN {} ELSE {<<"v4", "v1">>, <<"nobody">>}) ELSE {<<>>}
 Begin ==
    /\ phase = "idle" /\ cnt.blocks < MaxBlocks
    /\ \E ab \in AbsentChoices, evd \in EvidenceChoices :
@@ -115,21 +116,17 @@ Commit ==
    /\ scn' = Append(scn, [op |-> "commit"])
    /\ cnt' = [cnt EXCEPT !.blocks = @ + 1]
 
-\* n quiet blocks in one step (generation only): everybody present, no evidence, no transactions
-RECURSIVE Quiet(_, _)
-Quiet(s, n) == IF n = 0 THEN s
-               ELSE LET vs == {s.vals[i].p : i \in DOMAIN s.vals}
-                        b == BeginS(s, s.h + 1, {}, <<>>, WorldCfg)
-                    IN Quiet(CommitS(EndS(b, b.h, vs, WorldCfg, 1, Cap)), n - 1)
-SkipLengths == {5, 176, 177, 530, 531}
+\* n quiet blocks (generation only): the scenario tells the node to run n empty blocks; the model does not compute them -- what is
+\* generated is the input sequence, and no transaction of the menu is enabled or disabled by the state
+SkipLengths == {176, 177, 530, 531}
 Skip ==
-   /\ Real /\ "Skip" \in Menu /\ phase = "idle" /\ cnt.blocks < MaxBlocks /\ cnt.blocks > 0
+   /\ Real /\ "Skip" \in Menu /\ phase = "idle" /\ cnt.blocks < MaxBlocks /\ cnt.blocks > 0 /\ cnt.skips = 0
    /\ \E n \in SkipLengths :
-        /\ st' = Quiet(st, n)
-        /\ disk' = Quiet(st, n)
+        /\ st' = [st EXCEPT !.h = @ + n]
+        /\ disk' = [st EXCEPT !.h = @ + n]
         /\ ev' = Ev("Skip", st.h + n)
         /\ scn' = Append(scn, [op |-> "skip", n |-> n, quiet |-> TRUE])
-   /\ cnt' = [cnt EXCEPT !.blocks = @ + 1]
+   /\ cnt' = [cnt EXCEPT !.blocks = @ + 1, !.skips = @ + 1]
    /\ UNCHANGED <<hist, phase>>
 
 \* ---------------------------------------------------------------- transaction menu
@@ -141,15 +138,17 @@ MkTx(type, from, args) ==
 Dlg(a, p, v) == MkTx("Delegate", a, [pub |-> p, coin |-> Base, value |-> v])
 Unb(a, p, v) == MkTx("Unbond", a, [pub |-> p, coin |-> Base, value |-> v])
 Mov(a, p, q, v) == MkTx("MoveStake", a, [from |-> p, to |-> q, coin |-> Base, value |-> v])
-DelegateTxs == {Dlg("a2", "v1", 100), Dlg("a1", "v1", 0), Dlg("a1", "v1", 30), Dlg("a2", "c5", 500), Dlg("a2", "v2", 100), Dlg("a2", "nobody", 5),
-                Dlg("a2", "v1", 0), Dlg("a4", "v1", 2000), Dlg("o1", "v1", 10000)}
-UnbondTxs == {Unb("o1", "v1", 100), Unb("o1", "v1", 1000), Unb("a1", "v1", 50), Unb("a1", "v1", 70), Unb("a1", "v1", 100), Unb("a2", "v3", 0),
-              Unb("a4", "v2", 0), Unb("a4", "v2", 1), Unb("o4", "v4", 4000), Unb("o4", "v4", 4001), Unb("o1", "nobody", 1), Unb("o1", "v1", 0)}
-MoveTxs == {Mov("o1", "v1", "c5", 100), Mov("o1", "v1", "v1", 1), Mov("o1", "v1", "nobody", 1), Mov("a1", "v1", "c5", 70), Mov("a1", "v1", "c5", 20),
-            Mov("o4", "v4", "v1", 4000), Mov("a4", "v2", "v1", 0), Mov("o2", "v2", "v1", 2001)}
+\* the second set of each kind is left out when scenarios are generated for the real node (fewer near-duplicates)
+DelegateTxs == {Dlg("a2", "v1", 100), Dlg("a1", "v1", 0), Dlg("a1", "v1", 30), Dlg("a2", "c5", 500), Dlg("a2", "v2", 100), Dlg("a4", "v1", 2000)}
+               \cup (IF Real THEN {} ELSE {Dlg("a2", "nobody", 5), Dlg("a2", "v1", 0), Dlg("o1", "v1", 10000)})
+UnbondTxs == {Unb("o1", "v1", 100), Unb("o1", "v1", 1000), Unb("a1", "v1", 50), Unb("a1", "v1", 100), Unb("a2", "v3", 0), Unb("a4", "v2", 0), Unb("o4", "v4", 4001), Unb("o1", "v1", 0)}
+             \cup (IF Real THEN {} ELSE {Unb("a1", "v1", 70), Unb("a4", "v2", 1), Unb("o4", "v4", 4000), Unb("o1", "nobody", 1)})
+MoveTxs == {Mov("o1", "v1", "c5", 100), Mov("o1", "v1", "nobody", 1), Mov("a1", "v1", "c5", 70), Mov("o4", "v4", "v1", 4000), Mov("a4", "v2", "v1", 0), Mov("o2", "v2", "v1", 2001)}
+           \cup (IF Real THEN {} ELSE {Mov("o1", "v1", "v1", 1), Mov("a1", "v1", "c5", 20)})
 LockTxs == {MkTx("LockStake", "o1", <<>>)}
-SwitchTxs == {MkTx("SetCandidateOff", "a6", [pub |-> "v2"]), MkTx("SetCandidateOff", "o2", [pub |-> "v2"]), MkTx("SetCandidateOff", "a1", [pub |-> "v2"]),
-              MkTx("SetCandidateOn", "a5", [pub |-> "c5"]), MkTx("SetCandidateOn", "o1", [pub |-> "v1"]), MkTx("SetCandidateOn", "o1", [pub |-> "nobody"])}
+SwitchTxs == {MkTx("SetCandidateOff", "a6", [pub |-> "v2"]), MkTx("SetCandidateOff", "a1", [pub |-> "v2"]),
+              MkTx("SetCandidateOn", "a5", [pub |-> "c5"]), MkTx("SetCandidateOn", "o1", [pub |-> "v1"])}
+             \cup (IF Real THEN {} ELSE {MkTx("SetCandidateOff", "o2", [pub |-> "v2"]), MkTx("SetCandidateOn", "o1", [pub |-> "nobody"])})
 PunishTxs == {Unb("o4", "v4", 100), MkTx("SetCandidateOn", "o1", [pub |-> "v1"]), Dlg("a2", "v1", 100), Mov("o4", "v4", "v1", 50)}
 TxMenu == (IF "Delegate" \in Menu THEN DelegateTxs ELSE {})
      \cup (IF "Unbond" \in Menu THEN UnbondTxs ELSE {})
@@ -189,6 +188,56 @@ TypeOK == /\ phase \in {"idle", "begun", "ended"}
           /\ C02_State(st)
 \* every exit from staking that the model produces is on schedule: a frozen fund never outlives its due block
 NoOverdue == \A f \in Range(st.frozen) : f.due > st.h
+
+\* ---------------------------------------------------------------- vacuity guard: what the exploration must have reached
+\* (ACTION_CONSTRAINT ReachStep: always true; prints `REACH <name>` the first time a worker takes a step of that kind)
+ReachReg == 9
+ASSUME TLCSet(ReachReg, {})
+Mark(name, cond) == IF cond /\ name \notin TLCGet(ReachReg) THEN PrintT("REACH " \o name) /\ TLCSet(ReachReg, TLCGet(ReachReg) \cup {name}) ELSE TRUE
+OkTx(t) == Delivered /\ Code = 0 /\ Tx.type = t
+Rej(c) == Delivered /\ Code = c
+SenderWaits(p) == HasWait(st, Tx.sender, CandIdOf(st, p), Base)
+ReachStep ==
+   /\ Mark("DelegateOk", OkTx("Delegate"))
+   /\ Mark("DelegateFromWaitList", OkTx("Delegate") /\ SenderWaits(Arg("pub")))
+   /\ Mark("DelegateTooBig", Rej(TooBigStake))
+   /\ Mark("DelegateNoCandidate", Rej(CandidateNotFound))
+   /\ Mark("StakeNotPositive", Rej(StakeShouldBePositive))
+   /\ Mark("UnbondOk", OkTx("Unbond"))
+   /\ Mark("UnbondFromWaitList", OkTx("Unbond") /\ SenderWaits(Arg("pub")))
+   /\ Mark("UnbondWholeStake", OkTx("Unbond") /\ HasStake(st, Arg("pub"), Tx.sender, Base) /\ StakeVal(st', Arg("pub"), Tx.sender, Base) = Zero)
+   /\ Mark("StakeNotFound", Rej(StakeNotFound))
+   /\ Mark("InsufficientStake", Rej(InsufficientStake))
+   /\ Mark("InsufficientWaitList", Rej(InsufficientWaitList))
+   /\ Mark("MoveOk", OkTx("MoveStake"))
+   /\ Mark("MoveFromWaitList", OkTx("MoveStake") /\ SenderWaits(Arg("from")))
+   /\ Mark("MoveEqualKeys", Rej(EqualPubKey))
+   /\ Mark("LockStakeOk", OkTx("LockStake"))
+   /\ Mark("UnbondBlocked", Rej(UnbondBlocked))
+   /\ Mark("SwitchOffByControl", OkTx("SetCandidateOff") /\ Tx.sender # st.cands[Arg("pub")].owner)
+   /\ Mark("SwitchByStranger", Rej(IsNotOwnerOfCandidate))
+   /\ Mark("SwitchOnOk", OkTx("SetCandidateOn"))
+   /\ Mark("SwitchOnJailed", Rej(CandidateJailed))
+   /\ Mark("SwitchOnAfterJail", OkTx("SetCandidateOn") /\ st.cands[Arg("pub")].jailedUntil > 0)
+   /\ Mark("FundsMature", IsKind("BeginBlock") /\ DueNow # <<>>)
+   /\ Mark("UnbondedFundsReturn", IsKind("BeginBlock") /\ \E f \in Range(DueNow) : f.to = 0 /\ f.due = f.due /\ f.o \in {"o1", "o4", "a1"})
+   /\ Mark("MoveArrives", IsKind("BeginBlock") /\ \E f \in Range(DueNow) : f.to # 0 /\ f.o # "a3")
+   /\ Mark("Payout", IsKind("EndBlock") /\ IsPayout /\ PaidVals # {})
+   /\ Mark("UpdateBetweenPayouts", IsKind("EndBlock") /\ ~IsPayout /\ \E v \in Range(st.vals) : v.toDrop)
+   /\ Mark("ValidatorLeaves", IsKind("EndBlock") /\ ValNames(st') # ValNames(st))
+   /\ Mark("ValidatorLeavesWithAccum", IsKind("EndBlock") /\ \E v \in Range(st.vals) : v.p \notin ValNames(st') /\ ~v.toDrop /\ Zero \prec v.accum)
+   /\ Mark("ValidatorJoins", IsKind("EndBlock") /\ ValNames(st') \ ValNames(st) # {})
+   /\ Mark("UpdatesMerged", IsKind("EndBlock") /\ \E p \in DOMAIN st.cands : st.cands[p].upd # <<>> /\ st'.cands[p].upd = <<>>)
+   /\ Mark("EmptiedStakeGone", IsKind("Commit") /\ st' # st)
+   /\ Mark("TooAbsent", IsKind("BeginBlock") /\ \E p \in ValNames(st) : TooAbsent(p))
+   /\ Mark("JailedForAbsence", IsKind("BeginBlock") /\ \E p \in ValNames(st) : TooAbsent(p) /\ ~Grace(H))
+   /\ Mark("SwitchedOffInGrace", IsKind("BeginBlock") /\ \E p \in ValNames(st) : TooAbsent(p) /\ Grace(H))
+   /\ Mark("Evidence", IsKind("BeginBlock") /\ EvSet # {})
+   /\ Mark("EvidenceTwice", IsKind("BeginBlock") /\ EvSet # {} /\ Len(ev'.begin.evidence) = 2)
+   /\ Mark("EvidenceWithUnbondingFunds", IsKind("BeginBlock") /\ \E f \in Range(st.frozen) : f.key \in EvSet /\ f.due > H)
+   /\ Mark("EvidenceWithFundsDueNow", IsKind("BeginBlock") /\ \E f \in Range(st.frozen) : f.key \in EvSet /\ f.due = H)
+   /\ Mark("EvidenceAgainstOffline", IsKind("BeginBlock") /\ ~NoEvidence /\ EvSet = {})
+   /\ Mark("EvidenceAndAbsenceTogether", IsKind("BeginBlock") /\ \E p \in Range(ev'.begin.evidence) : Punishable(p) /\ TooAbsent(p))
 
 Dump == (phase = "idle" /\ cnt.blocks = MaxBlocks) => PrintT("SCN " \o ToJson(scn))
 =============================================================================
